@@ -61,3 +61,31 @@ func VF_C13_convert_istype() {
 		rvCompare([]byte{byte(opcode.ISNULL), byte(opcode.RET)}, []*rvItem{x}, "ISNULL", 8)
 	}
 }
+
+//vf:tier quick
+//vf:bigint theory
+//vf:unwind 120
+//vf:bound conversions produce independent values: a 2-byte ByteString (or Buffer) is duplicated, one copy converted to Buffer (or ByteString / Buffer), then the buffer among the two is modified in place (SETITEM with a symbolic byte or REVERSEITEMS); both items are compared with the reference afterwards
+func VF_C13_convert_result_is_independent() {
+	b := vfBytes("bytes", 2)
+	v := vfU8("stored")
+	mutate := []byte{byte(opcode.DUP), byte(opcode.PUSH0), byte(opcode.PUSHINT8), v & 0x7f, byte(opcode.SETITEM)}
+	if vfBool("reverse-instead") {
+		mutate = []byte{byte(opcode.DUP), byte(opcode.REVERSEITEMS)}
+	}
+	var script []byte
+	var x *rvItem
+	switch vfChoose("direction", 0, 2) {
+	case 0: // ByteString -> Buffer, mutate the new buffer
+		x = rvMkBytes(b)
+		script = append([]byte{byte(opcode.DUP), byte(opcode.CONVERT), rvTBuffer}, mutate...)
+	case 1: // Buffer -> ByteString, mutate the original buffer
+		x = rvMkBuf(b)
+		script = append([]byte{byte(opcode.DUP), byte(opcode.CONVERT), rvTBytes, byte(opcode.SWAP)}, mutate...)
+	case 2: // Buffer -> Buffer is the same item: a change is visible through both
+		x = rvMkBuf(b)
+		script = append([]byte{byte(opcode.DUP), byte(opcode.CONVERT), rvTBuffer}, mutate...)
+	}
+	script = append(script, byte(opcode.RET))
+	rvCompare(script, []*rvItem{x}, "convert-independent", 12)
+}
